@@ -118,6 +118,13 @@ func checkC05(c *Case) ([]hx.Discrepancy, *hx.Expect, map[string]interface{}, *W
 		if msg := walkShape(c.Schema, c.Doc, c.Op, hx.Norm(res["data"])); msg != "" {
 			ds = append(ds, hx.Discrepancy{Kind: "shape-walk", Detail: msg})
 		}
+		// the JSON shape is the shape of the JSON text: what ggql's writer makes of the response
+		// decodes (standard decoder) to the same numbers, strings and booleans - a value left in a Go
+		// kind the writer has no form for would show as a string there
+		for _, m := range jsonChecks(res) {
+			ds = append(ds, hx.Discrepancy{Kind: "json-shape", Detail: m})
+			break
+		}
 	}
 	return ds, exp, res, w
 }
